@@ -64,7 +64,7 @@ func (d *dialer) SetOption(n string, v interface{}) error {
 
 	switch n {
 	case mangos.OptionMaxRecvSize:
-		if b, ok := v.(int); ok {
+		if b, ok := v.(int); ok && b >= 0 {
 			d.maxRecvSize = b
 			return nil
 		}
@@ -202,7 +202,7 @@ func (l *listener) SetOption(n string, v interface{}) error {
 
 	switch n {
 	case mangos.OptionMaxRecvSize:
-		if b, ok := v.(int); ok {
+		if b, ok := v.(int); ok && b >= 0 {
 			l.maxRecvSize = b
 			return nil
 		}
